@@ -159,7 +159,7 @@ def output_dict(cfg, prefix):
         assert int(o.get("xyz", 0)) == int(h5.get("data", 0))
         h5.pop("data", None)
         return {"molid": list(o["molid"]), "prefix": prefix, "thermo": int(o.get("print", 0)), "dump": int(o.get("xyz", 0)), "checkpoint every": int(o.get("ckpt", 0)), "h5": h5}
-    return {
+    out = {
         "molid": list(o["molid"]),
         "prefix": prefix,
         "print every": int(o.get("print", 0)),
@@ -167,6 +167,11 @@ def output_dict(cfg, prefix):
         "xyz": int(o.get("xyz", 0)),
         "h5": h5,
     }
+    if cfg.get("sparse_h5_keys"):
+        out["h5"] = {k: v for k, v in h5.items() if v}
+    if cfg.get("omit_h5") and not any(h5.values()):
+        out.pop("h5")
+    return out
 
 
 def make_md(cfg, prefix, params=None, md=None):
